@@ -175,6 +175,8 @@ REPO_SOURCES = [
 
 SAN_FLAGS = ["-O1", "-g", "-fsanitize=address,undefined", "-fno-sanitize-recover=all", "-fno-omit-frame-pointer",
              "-UNDEBUG"]
+# packets.c reads 32-bit fields of PDUs through casts of char buffers (unaligned on purpose); see DESIGN.md §6
+SAN_FLAGS_NOALIGN = SAN_FLAGS + ["-fno-sanitize=alignment"]
 BASE_FLAGS = ["-std=gnu99", "-w", "-D" + GUARD, "-D_GNU_SOURCE"]
 
 
